@@ -424,14 +424,20 @@ def op_registry(_c):
 
 def op_probe(c):
     d = c["data"]
-    ents, owns = [], []
+    import time
+    ents, owns, tm = [], [], {}
     for name, cfg in c.get("entries", []):
+        t0 = time.perf_counter()
         o, own = run_entry(name, cfg, d)
+        k = name.split(".")[0] + ("/" + cfg["wrap"] if cfg.get("wrap") else "")
+        tm[k] = tm.get(k, 0.0) + time.perf_counter() - t0
         ents.append(o)
         owns.append(own)
+    t0 = time.perf_counter()
     dirs = [run_direct(fn, ac, io_, v, d) for fn, ac, io_, v in c.get("direct", [])]
     bdirs = [run_direct_bundle(ac, io_, v, d) for ac, io_, v in c.get("direct_bundle", [])]
-    return {"entries": ents, "own": owns, "direct": dirs, "direct_bundle": bdirs}
+    tm["direct"] = time.perf_counter() - t0
+    return {"entries": ents, "own": owns, "direct": dirs, "direct_bundle": bdirs, "t": tm}
 
 
 def show_detect(r):
